@@ -90,6 +90,13 @@ static void ref_show_string(const char* v, char* out, size_t cap) {
   out[o++] = '"'; out[o] = 0;
 }
 
+/* one element of a shown sequence: pushed onto c, its own show text written to text */
+static void push_shown_elem(vh_rng* r, var c, int ek, char* text, size_t cap) {
+  if (ek == 0) { int64_t v = vh_chance(r, 60) ? vh_range(r, -99, 99) : rand_i64(r); push(c, $I(v)); snprintf(text, cap, "%" PRId64, v); }
+  else if (ek == 1) { double v = rand_dbl(r); if (fabs(v) > 1e15 || v != v) { v = 2.5; } push(c, $F(v)); snprintf(text, cap, "%f", v); }
+  else { char b[12]; rand_bytes(r, b, 8); push(c, $S(b)); ref_show_string(b, text, cap); }
+}
+
 static void make_item(vh_rng* r, struct item* it, int kind) {
   memset(it, 0, offsetof(struct item, out) + 1);
   it->kind = kind; it->arg = NULL; it->out[0] = 0;
@@ -172,11 +179,15 @@ static void make_item(vh_rng* r, struct item* it, int kind) {
         case SH_TYPE: { var T[] = { KeyError, Int, String, Table, IndexOutOfBoundsError, Type, Cmp };
           it->arg = T[vh_below(r, 7)]; snprintf(ind, sizeof ind, "%s", c_str(it->arg)); break; }
         case SH_ARRAY: case SH_LIST: {
-          var c = it->show_kind == SH_ARRAY ? (var)new(Array, Int) : (var)new(List, Int);
-          int n = (int)vh_below(r, 5); size_t o = 0; char inner[400]; inner[0] = 0;
-          for (int i = 0; i < n; i++) { int64_t v = vh_range(r, -99, 99); push(c, $I(v)); o += (size_t)snprintf(inner + o, sizeof inner - o, "%s%" PRId64, i ? ", " : "", v); }
+          /* elements of any of the three value types, Ints over their whole range: each element's own show text */
+          int ek = (int)vh_below(r, 3);
+          var et = ek == 0 ? Int : ek == 1 ? Float : String;
+          var c = it->show_kind == SH_ARRAY ? (var)new_with(Array, tuple(et)) : (var)new_with(List, tuple(et));
+          int n = (int)vh_below(r, 5); size_t o = 0; char inner[900]; inner[0] = 0;
+          for (int i = 0; i < n; i++) { char t[120]; push_shown_elem(r, c, ek, t, sizeof t); o += (size_t)snprintf(inner + o, sizeof inner - o, "%s%s", i ? ", " : "", t); }
           it->arg = c;
           snprintf(ind, sizeof ind, "<'%s' At 0x%p [%s]>", it->show_kind == SH_ARRAY ? "Array" : "List", c, inner);
+          if (ek != 0) { vh_count("shown_sequences_of_floats_or_strings"); }
           break;
         }
         case SH_TUPLE: {
@@ -203,7 +214,34 @@ static void make_item(vh_rng* r, struct item* it, int kind) {
           snprintf(ind, sizeof ind, "<'Table' At 0x%p {%" PRId64 ":%" PRId64 "}>", c, k, v);
           break;
         }
-        case SH_RANGE: { it->arg = new(Int, $I(5)); snprintf(ind, sizeof ind, "5"); it->show_kind = SH_INT; break; }
+        case SH_RANGE: {
+          /* views: a Range (its Ints, whatever their size) and a Slice over a sequence of any element type (the
+             selected elements' own show text) */
+          if (vh_chance(r, 40)) {
+            int64_t a = vh_chance(r, 50) ? vh_range(r, -50, 50) : rand_i64(r) / 4;
+            int n = (int)vh_below(r, 5); size_t o = 0; char inner[400]; inner[0] = 0;
+            var g = new(Range, $I(a), $I(a + n));
+            for (int i = 0; i < n; i++) { o += (size_t)snprintf(inner + o, sizeof inner - o, "%s%" PRId64, i ? ", " : "", a + i); }
+            it->arg = g;
+            snprintf(ind, sizeof ind, "<'Range' At 0x%p [%s]>", g, inner);
+            if (n > 0 && (a > INT32_MAX || a < INT32_MIN)) { vh_count("shown_ranges_beyond_32_bits"); }
+            vh_count("shown_ranges");
+          } else {
+            int ek = (int)vh_below(r, 3);
+            var et = ek == 0 ? Int : ek == 1 ? Float : String;
+            var c = vh_chance(r, 50) ? (var)new_with(Array, tuple(et)) : (var)new_with(List, tuple(et));
+            int n = 1 + (int)vh_below(r, 5); char texts[6][120];
+            for (int i = 0; i < n; i++) { push_shown_elem(r, c, ek, texts[i], sizeof texts[i]); }
+            int lo = (int)vh_below(r, (uint64_t)n), hi = lo + (int)vh_below(r, (uint64_t)(n - lo) + 1);
+            var g = new(Slice, c, $I(lo), $I(hi));
+            size_t o = 0; char inner[900]; inner[0] = 0;
+            for (int i = lo; i < hi; i++) { o += (size_t)snprintf(inner + o, sizeof inner - o, "%s%s", i > lo ? ", " : "", texts[i]); }
+            it->arg = g;
+            snprintf(ind, sizeof ind, "<'Slice' At 0x%p [%s]>", g, inner);
+            if (hi > lo) { vh_count(ek == 0 ? "shown_slices_of_ints" : "shown_slices_of_floats_or_strings"); }
+          }
+          break;
+        }
         default: { it->arg = new(Plain14); snprintf(ind, sizeof ind, "<'Plain14' At 0x%p>", it->arg); break; }
       }
       /* the object's own show text, at position 0 of a scratch String */
